@@ -117,7 +117,6 @@ type Exec struct {
 	unrolled    int
 	symArrCtr   int
 	symStack    map[string]int
-	witnessVars []*Term // witnesses introduced by assumed existential clauses (this contract)
 	witnessTuples [][]Expr // hinted witnesses for the existential clause being proved
 	sliceCells  map[string]*Cell // backing arrays of slices held by region objects, by owner identity
 	recDepth    int
